@@ -1,6 +1,7 @@
 package mboxsim
 
 import (
+	"encoding/base64"
 	"encoding/json"
 	"fmt"
 	"path"
@@ -226,7 +227,45 @@ var c12directed = []string{"../../victim", "../../outside", "../../x", "../../mb
 	"../../out/victim", "../../in/victim", "../out/GOOD1", "../sent/GOOD1", "../../mbox2/in/x", "/etc/passwd", "/sandbox/victim", "..\\..\\victim", "..", "../..", "../../", "../../mbox",
 	"in/../../../victim", "x/../../../victim", "./../../victim", "..//..//victim", "../../victim.b2f", "", ".", "GOOD1", "NEWMSG000001"}
 
+// encodedForm hides a traversal string behind an encoding that some later
+// "canonicalisation" step might undo after the MID was validated: RFC 2047
+// encoded-words (the library has such a decoder for subjects and file names),
+// percent escapes, look-alike code points; optionally next to a byte that is
+// not valid UTF-8 (a typical trigger for "repair the string" code paths).
+func encodedForm(r *core.Rand, inner string) string {
+	var s string
+	switch r.Pick(3, 3, 2, 1) {
+	case 0:
+		var sb strings.Builder
+		for i := 0; i < len(inner); i++ {
+			c := inner[i]
+			if c == '/' || c == '.' && r.Bool() || c == '\\' || c < 0x21 || c > 0x7e || c == '=' || c == '?' || c == '_' {
+				fmt.Fprintf(&sb, "=%02X", c)
+			} else {
+				sb.WriteByte(c)
+			}
+		}
+		s = "=?" + core.Choice(r, []string{"utf-8", "UTF-8", "iso-8859-1"}) + "?" + core.Choice(r, []string{"q", "Q"}) + "?" + sb.String() + "?="
+	case 1:
+		s = "=?utf-8?" + core.Choice(r, []string{"b", "B"}) + "?" + base64.StdEncoding.EncodeToString([]byte(inner)) + "?="
+	case 2:
+		s = strings.NewReplacer("/", "%2f", ".", "%2e", "\\", "%5c").Replace(inner)
+	default:
+		s = strings.NewReplacer("/", "\uff0f", ".", "\uff0e").Replace(inner)
+	}
+	switch r.Pick(3, 2, 2) {
+	case 1:
+		s += "\xe6"
+	case 2:
+		s = "\xe6" + s
+	}
+	return s
+}
+
 func genHostileMID(r *core.Rand) string {
+	if r.Chance(0.08) {
+		return encodedForm(r, core.Choice(r, c12directed))
+	}
 	switch r.Pick(4, 5, 1, 1, 1) {
 	case 0:
 		return core.Choice(r, c12directed)
